@@ -156,6 +156,9 @@ func Param(name string) int {
 	return v
 }
 
+// IsSymbolic reports whether the harness runs under the symbolic executor (false in the native twin).
+func IsSymbolic() bool { return false }
+
 func ParamOr(name string, def int) int {
 	if v, ok := rp.Params[name]; ok {
 		return v
